@@ -719,9 +719,14 @@ Fixpoint xls_globals (recs : list (outcome rec_item)) (st : xls_state) : outcome
   | Ok (t, d, c) :: rest =>
     if t =? 47 then Err E_PASSWORD_                                  (* FilePass *)
     else if t =? 66 then                                             (* CodePage *)
-      if len d <? 2 then Err E_LEN_ else
-      do cp <- read_u16 d;
-      if cp =? 1200 then xls_globals rest st else Err E_UNMODELLED
+      (* `if force_codepage.is_none() && !matches!(biff, Biff::Biff8) { encoding = .. }` (fix of
+         audit-2 finding XLS-1): biff is Biff8 whenever this arm is reached — its initial value,
+         and the BOF arm below answers E_UNMODELLED for every other version — so the record is
+         length-checked and otherwise without effect, WHATEVER code page it names (BIFF8 strings
+         are Unicode: [MS-XLS] 2.5.240 / 2.5.293 / 2.5.294).  Before the fix the code replaced the
+         string decoder here and this model answered E_UNMODELLED for every value but 1200:
+         exactly where the code was wrong. *)
+      if len d <? 2 then Err E_LEN_ else xls_globals rest st
     else if t =? 34 then                                             (* Date1904 *)
       if len d <? 2 then Err E_LEN_ else
       do v <- read_u16 d;
@@ -1397,11 +1402,18 @@ Definition xls_stream (c : xls_choice) (wb : workbook xref) : bytes :=
 Definition xls_interpreted (t : N) : bool :=
   (t =? 47) || (t =? 66) || (t =? 34) || (t =? 1054) || (t =? 224) || (t =? 133) || (t =? 2057)
   || (t =? 24) || (t =? 23) || (t =? 252) || (t =? 10) || (t =? 60).
-(* ignorable for the metadata: every record the globals loop does not interpret, and well-formed
-   XF / FORMAT records (interpreted for the cell styles only) *)
+(* ignorable for the metadata: every record the globals loop does not interpret, well-formed
+   XF / FORMAT records (interpreted for the cell styles only), and a CodePage record
+   ([MS-XLS] 2.4.52: two bytes; the loop accepts any body of at least two) of ANY value at any
+   place among the globals: Excel writes 1200 into every BIFF8 file, JExcelApi 1252
+   (tests/sheet_name_parsing.xls), localised writers 932 / 936 / 949 / 950 / 125x / 65001, and a
+   value no decoder table knows is as legal — BIFF8 text never goes through the code page.
+   (Until audit 2 the record could not be written at all: 66 is an interpreted id, and the
+   interpreted ids were excluded from the ignorable records wholesale.) *)
 Definition xjunk_ok (r : N * bytes) : bool :=
   (negb (xls_interpreted (fst r)) || ((fst r =? 224) && (4 <=? len (snd r)))
-   || ((fst r =? 1054) && (5 <=? len (snd r))))
+   || ((fst r =? 1054) && (5 <=? len (snd r)))
+   || ((fst r =? 66) && (2 <=? len (snd r))))
   && (fst r <? 65536) && (len (snd r) <=? 8224).
 
 Definition wide_ok (wide : bool) (s : str) : bool := wide || forallb (fun c => c <? 256) s.
